@@ -136,3 +136,48 @@ def construct_client(E):
     # from an arbitrary earlier state - here from the constructor's)
     E.call(E.getattr(sock, '_reset_internals'), [])
     _initial_state(E, sock, honor, qsize, fs, handler, 1, P, 'client')
+
+
+# --------------------------------------------------------------------------- context-manager life cycle (C11 / C17: close happens, exactly once)
+
+AWR = 'rsocket/awaitable/awaitable_rsocket.py::AwaitableRSocket'
+
+
+@harness('e.lifecycle.base_and_client', ['C11', 'C17', 'C16'], functions=[BASE + '.__aenter__', BASE + '.__aexit__', CLIENT + '.__aenter__',
+                                                                      CLIENT + '.close'],
+         assumptions=['connect / close / _close are used through their own contracts (c17.connect_gives_fresh_state, c11.client_close)'])
+def lifecycle(E):
+    E.import_module('asyncio')
+    role = [SERVER, CLIENT][E.path.choice(2, 'role')]
+    from pyvc.harness import new_obj
+    sock = new_obj(E, role)
+    calls = []
+    E.stubs[CLIENT + '.connect'] = lambda E_, f, a, k: (calls.append('connect'), aio.Awaitable('ready', result=a[0]))[1]
+    E.stubs[BASE + '.close'] = lambda E_, f, a, k: (calls.append('base.close'), aio.Awaitable('ready'))[1]
+    E.stubs[CLIENT + '._close'] = lambda E_, f, a, k: (calls.append(('client._close', k.get('reconnect', a[1] if len(a) > 1 else False))),
+                                                        aio.Awaitable('ready'))[1]
+    r = E.await_value(E.call(E.getattr(sock, '__aenter__'), []))
+    E.cover('entered')
+    E.prove('lifecycle:entering_returns_the_endpoint_and_a_client_connects_exactly_once[a server is already running]',
+            r is sock and calls == (['connect'] if role == CLIENT else []))
+    del calls[:]
+    E.await_value(E.call(E.getattr(sock, '__aexit__'), [None, None, None]))
+    E.prove('lifecycle:leaving_closes_exactly_once[a client for good: not in reconnect mode]',
+            calls == ([('client._close', False)] if role == CLIENT else ['base.close']))
+
+
+@harness('e.lifecycle.awaitable', ['C11', 'C07'], functions=[AWR + '.__aenter__', AWR + '.__aexit__', AWR + '.connect', AWR + '.__init__'],
+         assumptions=['the wrapped RSocket is abstract'])
+def lifecycle_awaitable(E):
+    inner = SOpaque('rsocket', 'rsocket')
+    log = OpaqueLog(E, returns={'__aenter__': lambda *a: aio.Awaitable('ready', result=inner), '__aexit__': lambda *a: aio.Awaitable('ready'),
+                                'connect': lambda *a: aio.Awaitable('ready', result=inner)})
+    aw = E.call(E.lookup(AWR), [inner])
+    r = E.await_value(E.call(E.getattr(aw, '__aenter__'), []))
+    E.cover('entered')
+    E.prove('awaitable:entering_enters_the_wrapped_endpoint_once_and_returns_the_wrapper', r is aw and [c[1] for c in log.of(inner)] == ['__aenter__'])
+    E.await_value(E.call(E.getattr(aw, '__aexit__'), [None, None, None]))
+    E.prove('awaitable:leaving_leaves_the_wrapped_endpoint_once[this is what closes the connection]',
+            [c[1] for c in log.of(inner)] == ['__aenter__', '__aexit__'] and log.of(inner)[1][2] == (None, None, None))
+    r2 = E.await_value(E.call(E.getattr(aw, 'connect'), []))
+    E.prove('awaitable:connect_delegates', r2 is inner and [c[1] for c in log.of(inner)][-1] == 'connect')
